@@ -40,8 +40,17 @@ def run(ctx):
     if pf is None:
         return
     # ---- R1 plumbing ------------------------------------------------------------------------
-    want = {"contents_first": "depth_first", "max_depth": "max_depth", "min_depth": "min_depth", "same_file_system": "same_file_system"}
+    want = {"contents_first": "depth_first", "max_depth": "max_depth", "same_file_system": "same_file_system"}
     seen = set()
+    # contract W6: walkdir applies min_depth to its *stack* depth (IntoIter::skippable), not to the entry's depth; under
+    # contents_first below a followed root link (-H LINK -depth) a directory is released one level late, so walkdir's own
+    # lower bound drops the directories at depth == min_depth. The bound is find's to enforce (R2 decides that it does).
+    mins = [(b, t) for b, t in pf.calls() if (t.callee or "") == "walkdir::WalkDir::min_depth"]
+    okm = all((lambda o: o.k == "const" and o.a.get("v") == 0)(prim.origin_of_operand(pf, t.args[1]).strip()) for b, t in mins)
+    ctx.ob("R1", "walkdir.min_depth-not-delegated", okm,
+           "process_dir hands %s to WalkDir::min_depth; walkdir compares it with its stack depth, which is one too small for the directories it releases late (contents_first) below a starting point that is a followed symbolic link: "
+           "`find -H LINK -depth -mindepth 1` then never evaluates LINK's subdirectories (contract W6). -mindepth has to be enforced on entry.depth() by process_dir alone" % [prim.origin_of_operand(pf, t.args[1]).fmt() for b, t in mins],
+           fn=pf, where=prim.site(pf, mins[0][0]) if mins else None, how="builder chain (API contract W6)")
     for b, t in pf.calls():
         c = t.callee or ""
         if not c.startswith("walkdir::WalkDir::"):
